@@ -1140,7 +1140,9 @@ func wrapAny(val Node, targetType *Type) Node {
 			return v
 		case *BinaryExpression:
 			v.Left = wrapAny(v.Left, targetType)
-			v.Right = wrapAny(v.Right, targetType)
+			if v.Op == OP_PLUS {
+				v.Right = wrapAny(v.Right, targetType)
+			}
 			v.T = targetType
 			return v
 		case *GroupExpression:
@@ -1161,6 +1163,27 @@ func wrapAny(val Node, targetType *Type) Node {
 		panic(fmt.Sprintf("internal error: untyped map: %s incompatible types: target %v, value %v", val.Token().Location(), targetType, valType))
 	}
 
+	// An expression that only contains constants is converted like a constant.
+	switch v := val.(type) {
+	case *GroupExpression:
+		v.Expr = wrapAny(v.Expr, targetType)
+		return v
+	case *SliceExpression:
+		if targetType.Name == ARRAY {
+			v.Left = wrapAny(v.Left, targetType)
+			v.T = targetType
+			return v
+		}
+	case *BinaryExpression:
+		if targetType.Name == ARRAY && (v.Op == OP_PLUS || v.Op == OP_ASTERISK) {
+			v.Left = wrapAny(v.Left, targetType)
+			if v.Op == OP_PLUS {
+				v.Right = wrapAny(v.Right, targetType)
+			}
+			v.T = targetType
+			return v
+		}
+	}
 	arrayLit, ok := val.(*ArrayLiteral)
 	if targetType.Name == ARRAY && ok {
 		for i, el := range arrayLit.Elements {
